@@ -9,6 +9,15 @@ rnd, base = int(sys.argv[1]), sys.argv[2]
 only = [a.upper() for a in sys.argv[3:]]
 
 FLAVOUR = {
+    11: ("Produce a change that is DIFFERENT from all of those. This time work from the STATEMENT: read it and its quantifier clause by clause "
+         "(every 'and', every listed case, every 'including ...', every 'never' / 'always' / 'exactly'). Pick the ONE clause, or the one corner of "
+         "the quantified domain, that you judge least likely to be exercised by a harness that already catches everything listed above - a clause "
+         "that reads like an afterthought, a case named only in the quantifier, a secondary output, a 'never alters its input', an 'any order', "
+         "a 'both constructions', an 'every size', a 'with and without option X' - and break only that, in the function that implements it. Name "
+         "the clause in meta.json as an extra key \"clause\". The change must be plausible as an honest regression (a refactoring, an optimisation, "
+         "a 'fix' for something else), must keep the 46 tests green, and must leave the rest of the statement intact. Avoid changes whose only "
+         "effect is at absurd numeric scales (1e-10 or 1e+10), and avoid changes that only show when the caller rewrites the library's internal "
+         "data structures by hand."),
     10: ("Produce a change that is DIFFERENT from all of those - a different function and a different trigger. Choose ONE of these styles, "
          "whichever gives the most plausible honest regression for this property: (a) a shared helper outside the anchored functions (utils, "
          "Point / Shape / BoundingBox / AspectRatio, netlist_types, keyword tables, small helpers of the tools); (b) an error path: the wrong thing "
